@@ -204,6 +204,11 @@ def gen_case(rng, nops):
                 lines.append(f"pool-move {d} {s}")
             exp.append("ok")
         elif r < 0.93:
+            if rng.random() < 0.15:
+                # self-assignment through an alias (`a = a`): the object is the only or one of several holders; nothing may change
+                lines.append(f"pool-assign {s} {s}")
+                exp.append("ok")
+                continue
             others = [x for x in M.slots if x != s]
             if not others:
                 continue
